@@ -115,9 +115,23 @@ def twin(lang):
     return _y.safe_dump(d, sort_keys=False)
 
 
+def guarded_small():
+    """libs.SMALL_CXX once more, with the class under a preprocessor condition and literalinclude: the helper text made for a
+    class then differs between two libraries that agree on every name."""
+    import yaml as _y
+
+    d = _y.safe_load(libs.SMALL_CXX)
+    cls = d["declarations"][-1]["declarations"][-1]
+    assert cls["decl"] == "class Thing"
+    cls["cpp_if"] = "ifdef HAVE_THING"
+    cls["options"] = {"literalinclude": True}
+    return _y.safe_dump(d, sort_keys=False)
+
+
 ALPHABET = [
     ("csmall", libs.SMALL_C, []),
     ("small", libs.SMALL_CXX, []),
+    ("small-guarded", guarded_small(), []),
     ("other", libs.OTHER_CXX, []),
     ("fwd", TYPEMAP_LIB, []),
     ("hdrs", HDRS_LIB, []),
@@ -128,16 +142,19 @@ ALPHABET = [
 ]
 
 
-def ns_for(yaml_path, outdir, extra):
-    """The argparse.Namespace the console entry point would build."""
+def ns_for(yaml_path, outdir, extra, every_output=False):
+    """The argparse.Namespace the console entry point would build; every_output also asks for each optional file
+    (--cfiles --ffiles --yaml-types --write-helpers --write-statements), all inside the output directory."""
     ap = argparse.ArgumentParser()
     ap.add_argument("--option", default=[], action="append")
     ap.add_argument("--language", default=None)
     a = ap.parse_args(extra)
+    j = (lambda f: f) if every_output else (lambda f: "")  # the writers join these names with the output directory themselves
     return argparse.Namespace(
         outdir=outdir, outdir_c_fortran="", outdir_python="", outdir_lua="", outdir_yaml="", logdir=outdir,
-        cfiles="", ffiles="", path=[], cmake="", write_helpers="", write_statements="", write_version=True,
-        yaml_types="", filename=[yaml_path], option=a.option, language=a.language)
+        cfiles=j("cfiles.txt"), ffiles=j("ffiles.txt"), path=[], cmake="", write_helpers="helpers" if every_output else "",
+        write_statements="statements.txt" if every_output else "", write_version=True,
+        yaml_types=j("alltypes.yaml"), filename=[yaml_path], option=a.option, language=a.language)
 
 
 def registry_state():
@@ -271,10 +288,10 @@ def patched_run(args):
 
         import shroud.main
 
-        t = 1.0e9 if variant == 0 else 1.9e9
+        t = 1.0e9 if variant % 2 == 0 else 1.9e9
         time.time = lambda: t
         time.localtime = lambda *a: time.gmtime(t)
-        time.ctime = lambda *a: "Thu Jan  1 00:00:00 1970" if variant == 0 else "Fri Feb  2 11:11:11 2029"
+        time.ctime = lambda *a: "Thu Jan  1 00:00:00 1970" if variant % 2 == 0 else "Fri Feb  2 11:11:11 2029"
         time.strftime_orig = time.strftime
         time.strftime = lambda fmt, *a: time.strftime_orig(fmt, time.gmtime(t))
         socket.gethostname = lambda: "host%d" % variant
@@ -296,7 +313,7 @@ def patched_run(args):
         with open(os.path.join(workdir, "lib.yaml"), "w") as fp:
             fp.write(text)
         os.chdir(workdir)
-        shroud.main.main_with_args(ns_for("lib.yaml", "out", extra))
+        shroud.main.main_with_args(ns_for("lib.yaml", "out", extra, every_output=variant >= 2))
         return True
 
     r = isolate.call_in_child(body, (), timeout=120)
@@ -411,9 +428,21 @@ def run(ctx):
     ctx.part("dimensions", runs=len(cres), libraries=len(sel), hash_seeds=seeds)
     # ---- patched clock / host / pid / random
     pbase = ctx.subdir("p")
+    # variants 0/1: the plain command line under two clocks / hosts; 2/3: the same with every optional output file requested
     pj = [(os.path.join(pbase, "%s-%d" % (nm, v)), text, extra, v) for (nm, text, extra) in sel for v in (0, 1)]
+    pj += [(os.path.join(pbase, "%s-%d" % (nm, v)), text, extra, v) for (nm, text, extra) in sel for v in (2, 3)]
     pres = isolate.pmap(patched_run, pj, W)
-    for i in range(0, len(pres), 2):
+    half = 2 * len(sel)
+    for i in range(half, len(pres), 2):
+        nm = sel[(i - half) // 2][0]
+        (s0, t0), (s1, t1) = pres[i], pres[i + 1]
+        if s0 != "ok" or s1 != "ok":
+            ctx.violation("patched-all-outputs %s" % nm, "run with every optional output failed: %s %s" % (t0 if s0 != "ok" else "", t1 if s1 != "ok" else ""), {"kind": "patched", "lib": nm})
+        elif t0 != t1:
+            ctx.violation("patched-all-outputs %s" % nm, "with every optional output file requested the output depends on clock/host/pid/random:\n%s" % "\n".join(isolate.diff_trees(t0, t1, 2)), {"kind": "patched", "lib": nm})
+        elif "alltypes.yaml" not in t0:
+            ctx.violation("patched-all-outputs %s" % nm, "--yaml-types file was not written", {"kind": "patched", "lib": nm})
+    for i in range(0, half, 2):
         nm = sel[i // 2][0]
         (s0, t0), (s1, t1) = pres[i], pres[i + 1]
         if s0 != "ok" or s1 != "ok":
